@@ -41,7 +41,8 @@ SUFFIXES = [".mha", ".mhd", ".nii", ".nii.gz", ".hdr", ".img", ".img.gz", ".nrrd
 # what a format can represent (probed with this SimpleITK build): payloads are adapted, not the oracle
 CAPS = {".vtk": {"oriented": False}, ".hdf5": {"max_channels": 1}}
 SUBDIR = "sub"  # a second directory holding a file of the same base name: the same relative spelling from two working directories
-STEMS = ["s0", "s 1", "s%202", SUBDIR + "/s0"]  # plain, with a space, with a literal percent escape (all valid POSIX names; '#' and '?' are
+NEWDIR = "new/deeper"  # does not exist until the first write into it: writers create missing parent directories
+STEMS = ["s0", "s 1", "s%202", SUBDIR + "/s0", NEWDIR + "/s3"]  # plain, with a space, with a literal percent escape (all valid POSIX names; '#' and '?' are
 # not used: deepali's path -> URI -> urlsplit pipeline drops everything after them, see DESIGN.md section 4.3)
 DTYPES = ["uint8", "int16", "int32", "float32", "float64"]
 NATIVE_BYTES = (".mha",)
@@ -262,27 +263,23 @@ class IoWorld:
     # ------------------------------------------------------------ file system observation
     def names(self) -> List[str]:
         """Relative names of every file of the simulated namespace (the run directory and its one subdirectory)."""
-        out = [n for n in os.listdir(self.root) if n != SUBDIR]
-        sub = os.path.join(self.root, SUBDIR)
-        if os.path.isdir(sub):
-            out += [SUBDIR + "/" + n for n in os.listdir(sub)]
+        out = []
+        for d, _dirs, files in os.walk(self.root):
+            rel = os.path.relpath(d, self.root)
+            out += [f if rel == "." else rel + "/" + f for f in files]
         return sorted(out)
 
     def snapshot(self) -> Dict[str, str]:
         out = {}
-        names = sorted(os.listdir(self.root))
-        sub = os.path.join(self.root, SUBDIR)
-        if os.path.isdir(sub):
-            names += [SUBDIR + "/" + n for n in sorted(os.listdir(sub))]
-        for name in names:
-            if name == SUBDIR:
-                continue
-            p = os.path.join(self.root, name)
-            if os.path.isfile(p):
-                with open(p, "rb") as f:
-                    out[name] = hashlib.blake2b(f.read(), digest_size=8).hexdigest()
-            else:
-                out[name] = "<dir>"
+        for name in self.names():
+            with open(os.path.join(self.root, name), "rb") as f:
+                out[name] = hashlib.blake2b(f.read(), digest_size=8).hexdigest()
+        # directories other than the two of the namespace (and the parents writers are expected to create) are findings too
+        for d, dirs, _files in os.walk(self.root):
+            for dd in dirs:
+                rel = os.path.relpath(os.path.join(d, dd), self.root)
+                if rel not in (SUBDIR, NEWDIR, NEWDIR.split("/")[0]):
+                    out[rel] = "<dir>"
         return out
 
     @staticmethod
@@ -329,7 +326,7 @@ class IoWorld:
             return Path(p), None
         if form == "uri":
             return "file://" + p, None
-        if form == "rel":
+        if form == "rel" and os.path.isdir(os.path.dirname(p)):
             return os.path.basename(name), os.path.dirname(p)  # relative to a changed cwd (the directory of the file)
         return p, None
 
@@ -463,6 +460,7 @@ class _Ops:
                 # deepali's tensor -> SimpleITK conversion, SimpleITK's own writer
                 entry = "FlowField.sitk+WriteImage"
                 arg, cwd = self.full(name), None
+                os.makedirs(os.path.dirname(arg), exist_ok=True)  # SimpleITK's own writer needs the directory
                 call = lambda: sitk.WriteImage(obj.sitk(), arg, compress)
         else:
             arr = make_array(desc)
@@ -478,6 +476,7 @@ class _Ops:
                 entry = "Image.sitk+WriteImage"
                 img = Image(data, grid)
                 arg, cwd = self.full(name), None
+                os.makedirs(os.path.dirname(arg), exist_ok=True)  # SimpleITK's own writer needs the directory
                 call = lambda: sitk.WriteImage(img.sitk(), arg, compress)
             elif entry == "to_uri":
                 img = Image(data, grid)
@@ -485,6 +484,7 @@ class _Ops:
             else:
                 img = Image(data, grid)
                 call = lambda: img.write(arg, compress=compress)
+        missing_dir = not os.path.isdir(os.path.dirname(self.full(name)))
         before = self.snapshot()
         fault = op.get("fault")
         if fault and suffix_of(name) in NATIVE_BYTES:
@@ -529,6 +529,8 @@ class _Ops:
         rec.files = set(touched) | self.family_existing(name)
         self.rec[name] = rec
         self.c["probes"]["write_layout:" + str(op.get("layout", "contig"))] += 1
+        if missing_dir:
+            self.c["probes"]["write_created_missing_directories"] += 1
         if before:
             self.c["probes"]["write_onto_nonempty_dir"] += 1
         if any(k.startswith(self.stem_of(name) + ".") and k != name for k in before):
@@ -551,6 +553,7 @@ class _Ops:
             arr = flow_t.numpy().astype(np.dtype(desc["dtype"]))  # world vectors as stored by ITK tools
         else:
             arr = make_array(desc)
+        os.makedirs(os.path.dirname(self.full(name)), exist_ok=True)  # the second party does not create directories
         before = self.snapshot()
         st, r = self.guarded(lambda: sitk.WriteImage(sitk_from(arr, hdr), self.full(name), compress))
         after = self.snapshot()
@@ -1017,7 +1020,7 @@ class IoEngine:
             if rng.chance(0.3):
                 weights[k] *= rng.choice([0.3, 2.0])
         return {"profile": profile or "C18", "tier": tier, "faults": faults, "suffix_on": suffix_on, "weights": weights,
-                "n_stems": rng.choice([1, 2, 3, 4, 4]), "length": rng.randint(6, 20 if tier == "quick" else 30)}
+                "n_stems": rng.choice([1, 2, 3, 4, 4, 5, 5]), "length": rng.randint(6, 20 if tier == "quick" else 30)}
 
     def new_world(self, scenario) -> World:
         return World(self, scenario)
